@@ -250,6 +250,10 @@ func runC15(p *core.Program, r *core.Report) {
 				if sel, ok := x.Fun.(*ast.SelectorExpr); ok && (sel.Sel.Name == "Type" || sel.Sel.Name == "Kind") {
 					dep = s
 				}
+				// any call that yields a reflect.Kind / reflect.Type (a helper such as kind(node))
+				if t := cinfo.TypeOf(x); t != nil && (strings.HasSuffix(t.String(), "reflect.Kind") || strings.HasSuffix(t.String(), "reflect.Type")) {
+					dep = s
+				}
 			case *ast.Ident:
 				// a local defined from kind(node.X) / node.Type()
 				if o := objOf(cinfo, x); o != nil {
@@ -303,7 +307,7 @@ func runC15(p *core.Program, r *core.Report) {
 	c15Untyped(p, r)
 	r.Floor("R15.1", 4)
 	r.Floor("R15.2", 4)
-	r.Floor("R15.3", 12)
+	r.Floor("R15.3", 10) // 12 kind cases today; a case the default already covers may be dropped
 	r.Floor("R15.4", 1)
 	r.Floor("R15.5", 3)
 }
